@@ -1,15 +1,91 @@
 (** C14: configuration, lease database and filter files are replaced
-    atomically.  Only statements here; proofs live in Proofs/FS.v. *)
+    atomically (PARTIAL: the kernel honouring the contract written at the top
+    of Base/FS.v is assumed).  Only statements here; proofs: Proofs/FS.v,
+    Proofs/Writers.v. *)
 From Coq Require Import List NArith.
 From AGH Require Import Base.FS Proofs.FS.
 Import ListNotations.
 Local Open Scope N_scope.
 
+(** For all old/new contents and EVERY chunking of the writes: open a fresh
+    temporary name, write the chunks, fsync, close, rename onto dst.  At every
+    instant, and after a crash at every prefix, dst holds the complete old or
+    the complete new content (old = [None] when there was no file). *)
+Theorem C14_atomic_shape_safe : forall s dst tmp fd (chunks : list data),
+  quiescent s dst -> fresh_tmp s dst tmp ->
+  forall v, In v (visible_states s (atomic_shape fd tmp dst chunks) dst) ->
+            v = live_view s dst \/ v = Some (concat chunks).
+Proof. exact atomic_shape_safe. Qed.
+Print Assumptions C14_atomic_shape_safe.
+
+(** The theorem the recorded traces are judged by: for ARBITRARY traces, if
+    the one-pass checker accepts (nothing that dst ever named is opened for
+    writing, written or truncated; dst is not created in place, unlinked or
+    renamed away; a file renamed onto dst has no modification after its last
+    fsync), then everything visible at dst, at every instant and after a crash
+    at every prefix, is a complete published version: the initial one or the
+    full content of a file at the moment it was renamed onto dst. *)
+Theorem C14_checker_sound : forall dst s t,
+  quiescent s dst -> trace_safe dst s t = true ->
+  forall v, In v (visible_states s t dst) -> In v (all_versions s t dst).
+Proof. exact checker_sound. Qed.
+Print Assumptions C14_checker_sound.
+
+(** The states the evaluator starts the recorded traces from satisfy the
+    premise. *)
+Theorem C14_boot_quiescent : forall ents dst, quiescent (boot ents) dst.
+Proof. exact boot_quiescent. Qed.
+Print Assumptions C14_boot_quiescent.
+
+(** Non-vacuity: os.WriteFile (open O_TRUNC; write) is rejected by the
+    checker, and for a reason: an empty file is visible. *)
 Theorem C14_truncate_write_unsafe :
   exists old new,
     let s := boot [(1, old)] in
     let t := inplace_shape 3 1 [new] in
+    quiescent s 1 /\
     trace_safe 1 s t = false /\
     exists v, In v (visible_states s t 1) /\ v <> Some old /\ v <> Some new.
 Proof. exact truncate_write_unsafe. Qed.
 Print Assumptions C14_truncate_write_unsafe.
+
+(** Likewise for the rename without a preceding fsync. *)
+Theorem C14_rename_without_fsync_unsafe :
+  exists old new,
+    let s := boot [(1, old)] in
+    let t := [Open 3 2 fl_tmp; Write 3 new; Close 3; Rename 2 1] in
+    trace_safe 1 s t = false /\
+    exists v, In v (visible_states s t 1) /\ v <> Some old /\ v <> Some new.
+Proof. exact rename_without_fsync_unsafe. Qed.
+Print Assumptions C14_rename_without_fsync_unsafe.
+
+(** Failure paths clean up: a name created during the trace is gone at the
+    end unless it is in [keep]. *)
+Theorem C14_no_leftovers : forall keep s t,
+  no_leftovers keep s t = true ->
+  forall p, In p (created s t) -> aget (dir_cur (run s t)) p <> None -> In p keep.
+Proof. exact no_leftovers_sound. Qed.
+Print Assumptions C14_no_leftovers.
+
+(** The linear-time content function the evaluator runs is the plain
+    "apply the pending modifications oldest first". *)
+Theorem C14_f_cur_is_spec : forall f, f_cur f = f_cur_spec f.
+Proof. exact f_cur_spec_eq. Qed.
+Print Assumptions C14_f_cur_is_spec.
+
+Example C14_atomic_shape_premises :
+  let s := boot [(1, [10; 11; 12])] in
+  quiescent s 1 /\ fresh_tmp s 1 2 /\
+  live_view s 1 = Some [10; 11; 12] /\
+  let vs := visible_states s (atomic_shape 7 2 1 [[20]; []; [21; 22]]) 1 in
+  In (Some [10; 11; 12]) vs /\ In (Some [20; 21; 22]) vs.
+Proof. exact atomic_shape_premises. Qed.
+
+Example C14_checker_sound_premises :
+  let s := boot [(1, [1; 2])] in
+  let t := atomic_shape 5 2 1 [[3]; [4]] ++
+           [Open 5 3 fl_tmp; Write 5 [9]; Close 5; Unlink 3] ++
+           atomic_shape 6 4 1 [[5; 6; 7]] in
+  quiescent s 1 /\ trace_safe 1 s t = true /\ no_leftovers [1] s t = true /\
+  all_versions s t 1 = [Some [1; 2]; Some [3; 4]; Some [5; 6; 7]].
+Proof. exact checker_sound_premises. Qed.
